@@ -25,6 +25,7 @@ def _round(name):
     if tag.startswith("r4"): return 4
     if tag.startswith("r5"): return 5
     if tag.startswith("r6"): return 6
+    if tag.startswith("r7"): return 7
     t = re.sub(r"\d+$", "", tag)
     return 1 if (len(t) == 1 and t <= "o") else 2
 _rounds = {}
@@ -42,13 +43,14 @@ for d in sorted(glob.glob(V + "/seeded/*/")):
         r["after"] += 1
     else:
         r["open"].append(os.path.basename(d.rstrip("/")))
-out.append("Six rounds were run; each round's authors were shown the summaries of the changes already taken and asked for different ones. "
+out.append("Seven rounds were run; each round's authors were shown the summaries of the changes already taken and asked for different ones. "
            "Round 1: any small plausible edit. Round 2: another function / mechanism than round 1. Round 3: cooperating sites, interleavings and faults, "
            "glue (defaults, coercions, alternative entry points), second call on the same object. Round 4: rarely exercised variants and boundary values, "
            "partial reverts of the `fix:` commits, state leaks between two uses, error paths. Round 5: indirect edits (shared helpers and lower layers such as util / message / "
            "buffered_pipe / packet / SFTPHandle / ChannelMap), class structure (instance state made class-level, attribute turned property, method moved to a base class), "
            "behaviour that is wrong only under a documented non-default option or table entry, lifetime (reset / cached / closed at the wrong moment). "
-           "Round 6: the authors split each statement and its quantifier into clauses and aimed the subtlest edit they could find at the clauses the earlier 444 changes covered least.\n")
+           "Round 6: the authors split each statement and its quantifier into clauses and aimed the subtlest edit they could find at the clauses the earlier 444 changes covered least. "
+           "Round 7: minimal single-point mutations (one token or one line: comparison operators, and/or, off-by-one, constants, swapped arguments, similarly named attributes, deleted statements), three per property.\n")
 out.append("| Round | Changes kept | First run: caught with replay | caught, no input | missed | Caught with a concrete replay after strengthening | Not yet |\n|---|---|---|---|---|---|---|")
 for k in sorted(_rounds):
     r = _rounds[k]
